@@ -44,6 +44,7 @@ type Result struct {
 	Extra       map[string]int64  `json:"extra,omitempty"`
 	Err         string            `json:"err,omitempty"` // harness error (not a violation)
 	Caps        []string          `json:"caps,omitempty"`
+	Poisoned    bool              `json:"poisoned,omitempty"` // worker process must not be reused
 }
 
 func (r *Result) AddExtra(k string, v int64) {
@@ -112,6 +113,23 @@ func loadKnown() []KnownFinding {
 		os.Exit(2)
 	}
 	return f.Findings
+}
+
+var knownCache []KnownFinding
+var knownLoaded bool
+
+// IsKnown reports whether a violation key matches a recorded known finding.
+func IsKnown(property, key string) bool {
+	if !knownLoaded {
+		knownCache = loadKnown()
+		knownLoaded = true
+	}
+	for _, k := range knownCache {
+		if k.Status == "known" && k.Property == property && k.KeyMatch != "" && strings.HasPrefix(key, k.KeyMatch) {
+			return true
+		}
+	}
+	return false
 }
 
 func Hash(parts ...interface{}) uint64 {
@@ -292,6 +310,7 @@ func orchestrate(c *Check, tier string, nproc int) int {
 				done := 0
 				current := ""
 				died := false
+				poisoned := false
 				for len(pending) > 0 {
 					j := pending[0]
 					pending = pending[1:]
@@ -315,6 +334,9 @@ func orchestrate(c *Check, tier string, nproc int) int {
 								mu.Lock()
 								results = append(results, &r)
 								mu.Unlock()
+								if r.Poisoned {
+									poisoned = true
+								}
 							}
 							gotResult = true
 						} else if strings.HasPrefix(line, "START ") {
@@ -326,7 +348,7 @@ func orchestrate(c *Check, tier string, nproc int) int {
 						break
 					}
 					done++
-					if c.WorkerJobs > 0 && done >= c.WorkerJobs {
+					if poisoned || (c.WorkerJobs > 0 && done >= c.WorkerJobs) {
 						break
 					}
 					if nj, ok := <-jobCh; ok {
@@ -334,6 +356,9 @@ func orchestrate(c *Check, tier string, nproc int) int {
 					}
 				}
 				stdin.Close()
+				if poisoned {
+					cmd.Process.Kill()
+				}
 				err := cmd.Wait()
 				if died {
 					msg := fmt.Sprintf("worker died on job %q: %v", current, err)
@@ -588,3 +613,14 @@ func capList(c []string) []string {
 	}
 	return u
 }
+
+func mustJSON(v interface{}) json.RawMessage {
+	b, err := json.Marshal(v)
+	if err != nil {
+		panic(err)
+	}
+	return b
+}
+
+// MustJSON marshals v (panics on error).
+func MustJSON(v interface{}) json.RawMessage { return mustJSON(v) }
